@@ -49,7 +49,7 @@ impl Scenario for C15 {
             real: vec!["server::comms::tcp_transport (run, reader loop, wait_for_hello, process_hello, process_chunk, writer loop, timer task)", "SecureChannelService", "MessageHandler + services", "TcpCodec/FramedRead", "Chunker", "SecureChannel"],
             stubbed: vec!["TCP socket (tokio in-memory duplex through the verif::net seam)", "listener/accept loop"],
             assumptions: vec!["security policy None (handshake order does not depend on the policy; secured OPN is exercised by C14)"],
-            fault_kinds: vec!["out_of_order_frame", "segmentation", "delay"],
+            fault_kinds: vec!["out_of_order_frame", "segmentation", "delay", "request_pipelined_behind_close"],
         }
     }
     fn runs(&self, tier: Tier) -> u64 {
@@ -77,7 +77,12 @@ impl Scenario for C15 {
             steps.push(json!({"op": "opn"}));
         }
         while steps.len() < len {
-            steps.push(json!({"op": *rng.pick(&OPS)}));
+            if rng.chance(0.12) {
+                // Byzantine / pipelined frames that the plain enumeration does not contain
+                steps.push(json!({"op": *rng.pick(&["opn_c_then_msg", "opn_bad_mode", "clo_pipelined_create"])}));
+            } else {
+                steps.push(json!({"op": *rng.pick(&OPS)}));
+            }
         }
         json!({"steps": steps, "seg": *rng.pick(&[0usize, 1, 3, 7, 64]), "pause_us": *rng.pick(&[0u64, 0, 10, 1000, 200_000]), "tseed": rng.next_u64() >> 12})
     }
@@ -111,6 +116,8 @@ async fn run(plan: &Value, ctx: &mut Ctx) {
     let mut channel_open = false; // an OPN response was received
     let mut closed = false; // a CLO was sent while the channel was open
     let mut req_step: Vec<(u32, usize, &'static str)> = Vec::new();
+    let mut pipelined_after_close = 0u32;
+    let mut sessions_created = 0u32; // CreateSession responses seen
     let t0 = tokio::time::Instant::now();
 
     for (i, s) in steps.iter().enumerate() {
@@ -119,14 +126,88 @@ async fn run(plan: &Value, ctx: &mut Ctx) {
         let in_order = match op {
             "hel" => !acked,
             "opn" => acked && !closed,
-            "renew" | "get_endpoints" | "create_session" | "read" | "clo" => acked && channel_open && !closed,
+            "renew" | "get_endpoints" | "create_session" | "read" | "clo" | "clo_pipelined_create" => acked && channel_open && !closed,
+            "opn_c_then_msg" | "opn_bad_mode" => false,
             _ => true,
         };
         if !in_order {
             ctx.fault("out_of_order_frame");
         }
+        let create_session_msg = |c: &mut Conn| -> SupportedMessage {
+            CreateSessionRequest {
+                request_header: c.header(),
+                client_description: ApplicationDescription::default(),
+                server_uri: UAString::null(),
+                endpoint_url: UAString::from(l2::ENDPOINT_URL),
+                session_name: UAString::from("s"),
+                client_nonce: ByteString::from(vec![1u8; 32]),
+                client_certificate: ByteString::null(),
+                requested_session_timeout: 60000.0,
+                max_response_message_size: 0,
+            }
+            .into()
+        };
         let bytes: Vec<Vec<u8>> = match op {
             "hel" => vec![Conn::hello_bytes(l2::ENDPOINT_URL, 65536, 65536, 0, 0)],
+            // an OPN-typed intermediate chunk followed by a MSG final chunk that together hold a
+            // GetEndpoints request
+            "opn_c_then_msg" => {
+                use opcua::core::comms::message_chunk::{MessageChunk, MessageChunkType, MessageIsFinalType};
+                let msg: SupportedMessage = GetEndpointsRequest { request_header: c.header(), endpoint_url: UAString::from(l2::ENDPOINT_URL), locale_ids: None, profile_uris: None }.into();
+                let mut body = Vec::new();
+                let _ = msg.node_id().encode(&mut body);
+                let _ = msg.encode(&mut body);
+                let cut = body.len() / 2;
+                let id = c.next_req;
+                c.next_req += 1;
+                let mut v = Vec::new();
+                if let (Ok(a), Ok(b)) = (
+                    MessageChunk::new(c.next_seq, id, MessageChunkType::OpenSecureChannel, MessageIsFinalType::Intermediate, &c.chan, &body[..cut]),
+                    MessageChunk::new(c.next_seq + 1, id, MessageChunkType::Message, MessageIsFinalType::Final, &c.chan, &body[cut..]),
+                ) {
+                    c.next_seq += 2;
+                    req_step.push((id, i, "svc"));
+                    v.push(a.data);
+                    v.push(b.data);
+                }
+                v
+            }
+            // an OpenSecureChannel request that the server has to refuse
+            "opn_bad_mode" => {
+                let mut msg = c.opn_request(false, 600_000);
+                if let SupportedMessage::OpenSecureChannelRequest(ref mut r) = msg {
+                    r.security_mode = MessageSecurityMode::Invalid;
+                }
+                match c.encode_message(&msg) {
+                    Ok((id, chunks)) => {
+                        req_step.push((id, i, "opn_bad"));
+                        chunks
+                    }
+                    Err(_) => vec![],
+                }
+            }
+            // CloseSecureChannel and a CreateSession request in one write
+            "clo_pipelined_create" => {
+                let clo: SupportedMessage = CloseSecureChannelRequest { request_header: c.header() }.into();
+                let cs = create_session_msg(&mut c);
+                let mut one = Vec::new();
+                if let Ok((id, chunks)) = c.encode_message(&clo) {
+                    req_step.push((id, i, "clo"));
+                    for ch in chunks {
+                        one.extend_from_slice(&ch);
+                    }
+                }
+                if let Ok((id, chunks)) = c.encode_message(&cs) {
+                    req_step.push((id, i + 1000, "svc"));
+                    for ch in chunks {
+                        one.extend_from_slice(&ch);
+                    }
+                }
+                if channel_open && acked && !closed {
+                    pipelined_after_close += 1;
+                }
+                vec![one]
+            }
             _ => {
                 let msg: SupportedMessage = match op {
                     "opn" => c.opn_request(false, 600_000),
@@ -192,7 +273,7 @@ async fn run(plan: &Value, ctx: &mut Ctx) {
             ctx.fault("delay");
             tokio::time::sleep(Duration::from_micros(pause)).await;
         }
-        if op == "clo" && channel_open && acked && !closed && sent {
+        if (op == "clo" || op == "clo_pipelined_create") && channel_open && acked && !closed && sent {
             closed = true;
         }
         // collect what the server says within 20 virtual ms
@@ -214,6 +295,9 @@ async fn run(plan: &Value, ctx: &mut Ctx) {
                         ctx.violate("C15", "answer-before-ack", "", format!("server sent {} before acknowledging a Hello (step {})", kind, i));
                     }
                     let is_opn_resp = matches!(m, SupportedMessage::OpenSecureChannelResponse(_));
+                    if matches!(m, SupportedMessage::CreateSessionResponse(_)) {
+                        sessions_created += 1;
+                    }
                     match origin {
                         Some((_, j, what)) => {
                             if what == "svc" && !channel_open {
@@ -243,6 +327,11 @@ async fn run(plan: &Value, ctx: &mut Ctx) {
                 _ => {}
             }
         }
+        if op == "opn_bad_mode" && !channel_open && c.last_chunk_channel_id != 0 {
+            // a Byzantine client uses whatever channel id the refusal reveals
+            c.chan.set_secure_channel_id(c.last_chunk_channel_id);
+            ctx.probe("channel_id_revealed_by_refusal");
+        }
         if closed {
             ctx.probe("frames_after_close");
         }
@@ -251,6 +340,28 @@ async fn run(plan: &Value, ctx: &mut Ctx) {
             // connection ended: later steps cannot be delivered
             ctx.log("closed", "");
             break;
+        }
+    }
+    if pipelined_after_close > 0 {
+        // was the request that followed the CloseSecureChannel in the same write carried out? The
+        // server numbers its sessions, so a fresh connection can tell.
+        ctx.fault("request_pipelined_behind_close");
+        tokio::time::sleep(Duration::from_millis(50)).await;
+        let mut c2 = Conn::connect(&server, 100.0, 1 << 20, 50001);
+        if matches!(c2.hello().await, Recv::Ack(_)) {
+            c2.prepare_channel(opcua::crypto::SecurityPolicy::None, MessageSecurityMode::None, 2048);
+            if matches!(c2.open(false, 600_000).await, Recv::Msg(_, SupportedMessage::OpenSecureChannelResponse(_))) {
+                if let Recv::Msg(_, SupportedMessage::CreateSessionResponse(_)) = c2.create_session(60_000.0).await {
+                    let name = match &c2.session_id.identifier {
+                        Identifier::String(s) => s.as_ref().to_string(),
+                        _ => String::new(),
+                    };
+                    let n: u32 = name.rsplit('-').next().and_then(|x| x.parse().ok()).unwrap_or(0);
+                    if n > sessions_created + 1 {
+                        ctx.violate("C15", "processed-after-close", "pipelined", format!("a CreateSession request that followed CloseSecureChannel in the same write was carried out: the server has created {} sessions, {} were answered", n - 1, sessions_created));
+                    }
+                }
+            }
         }
     }
     ctx.advance((tokio::time::Instant::now() - t0).as_micros() as u64);
